@@ -15,10 +15,9 @@ DEFS = ('Definition show_node (o : option node) : string := match o with None =>
         'Definition b2s (b : bool) : string := if b then "1" else "0".\n')
 
 CLASS_TEXT = {
-    "crate-alias": "`use interthread as it;` #[it::<macro>] is left unexpanded in the example file",
 }
 # fixed defects: their witnesses are replayed as regression inputs, a recurrence is a VIOLATION
-FIXED_CLASSES = ("dup-attr", "abs-path", "glob-both", "late-import", "reimport")
+FIXED_CLASSES = ("dup-attr", "abs-path", "glob-both", "late-import", "reimport", "crate-alias")
 
 
 _CAP = {}
@@ -189,35 +188,33 @@ def is_part(rep, rng):
     for i, (mac, uses, lead, segs) in enumerate(cases):
         u = "[%s]" % "; ".join(G.ut_coq(t) for t in uses)
         p = "(ap %s [%s])" % ("true" if lead else "false", "; ".join(cq(x) for x in segs))
-        items.append(("i%d" % i, "(b2s (is_mac (track %s %s) %s) ++ b2s (denotes %s %s %s) ++ b2s (alias_path %s) ++ b2s (well_imported %s %s))%%string" % (
-            cq(mac), u, p, cq(mac), u, p, p, cq(mac), u)))
+        items.append(("i%d" % i, "(b2s (is_mac (track %s %s) %s) ++ b2s (denotes %s %s %s) ++ b2s (well_aliased %s %s) ++ b2s (well_imported %s %s))%%string" % (
+            cq(mac), u, p, cq(mac), u, p, cq(mac), u, cq(mac), u)))
     vals = inst.coq_values("C18_is", IMPORTS, items, defs=DEFS)
     rep.checker_cmds.append("coqc generated/C18_is.v")
     known = set()
     for i, ((mac, uses, lead, segs), (cls, f)) in enumerate(zip(cases, res)):
         rep.evaluations += 1
         v = unq(vals["i%d" % i])
-        m_is, m_den, m_known, m_wi = [c == "1" for c in v]
+        m_is, m_den, m_wa, m_wi = [c == "1" for c in v]
         real = (cls == "VALUE" and f[0] == "true")
         py_den = G.denotes(mac, uses, lead, segs)
-        rep.count("is_case", "is=%d denotes=%d known=%d wellimp=%d" % (real, m_den, m_known, m_wi))
-        rep.nontrivial.add(("is", real, m_den, m_known, m_wi, len(segs), lead))
+        rep.count("is_case", "is=%d denotes=%d wellaliased=%d wellimp=%d" % (real, m_den, m_wa, m_wi))
+        rep.nontrivial.add(("is", real, m_den, m_wa, m_wi, len(segs), lead))
         ok_tie = rep.oblige(cls == "VALUE" and real == m_is)
         rep.oblige(py_den == m_den)
-        # the property on the real code: inside the guards of C18_is_sound / C18_is_complete_guarded, is == denotes
+        # the property on the real code: inside the guards of C18_is_sound, and unconditionally for C18_is_complete, is == denotes
         inp = {"macro": mac, "uses": ["use %s;" % G.ut_rust(t) for t in uses], "attribute": "#[%s%s]" % ("::" if lead else "", "::".join(segs))}
-        if py_den and not m_known:
-            # C18_is_complete_guarded on the real code (no guard but crate-alias paths)
+        if py_den:
+            # C18_is_complete on the real code (crate aliases included since repair bb05e40)
             if not rep.oblige(real):
                 viol(rep, "is_%d" % i, dict(inp, what="UseMacro::is rejects a path that denotes the macro", expected=True, observed=real), found=True)
-        elif m_wi and real and not py_den:
+        elif m_wi and m_wa and real and not py_den:
             rep.oblige(False)
             viol(rep, "is_unsound_%d" % i, dict(inp, what="UseMacro::is accepts a path that does not denote the macro", expected=False, observed=True), found=True)
-        elif m_known and py_den and not real:
-            known.add("crate-alias")
         else:
             rep.oblige(True)
-        if not ok_tie and (real == py_den or not m_wi):
+        if not ok_tie and (real == py_den or not (m_wi and m_wa)):
             viol(rep, "is_tie_%d" % i, dict(inp, what="correspondence is_mac(track ..) vs real update+is no longer checks", model=m_is, observed=real), found=False)
     return known
 
